@@ -40,7 +40,7 @@ def infoSites : List String := ["title", "author", "subject", "keywords", "creat
 
 /-- sites already writing through `Object::text_string` / `text_string_bytes` in /repo (one repair per
 site group; a site not listed still uses the old carrier) -/
-def repaired : List String := infoSites ++ ["outline", "annot", "field", "fielddv", "fillw"]
+def repaired : List String := infoSites ++ ["outline", "annot", "field", "fielddv", "fillw", "ifill"]
 
 def carrierOf (site : String) : Option Carrier :=
   if infoSites.contains site || ["outline", "annot", "field", "fielddv", "fillw"].contains site then
